@@ -2,7 +2,8 @@
 """Must-fail corpus: applies each deliberate property-breaking change (selftest/mutants/*.json + seeded/*/patch.diff)
 to a scratch copy of /repo and expects the property's quick check to fail on the named obligation.
 Usage: selftest/run.py [name-substring]"""
-import json, os, subprocess, sys, shutil, glob, tempfile
+import json, os, subprocess, sys, shutil, glob, tempfile, functools
+print = functools.partial(print, flush=True)
 root = os.path.dirname(os.path.dirname(os.path.abspath(__file__)))
 flt = sys.argv[1] if len(sys.argv) > 1 else ''
 cases = []
@@ -14,13 +15,16 @@ for d in sorted(glob.glob(os.path.join(root, 'seeded', '*'))):
         meta = json.load(open(mf))
         exp = [x.split(': ', 1)[1].split(' ')[0] for x in meta.get('detected_by', []) if ': ' in x]
         cases.append({'name': 'seed-' + meta['id'], 'property': meta['property'], 'patch_file': os.path.join(d, 'patch.diff'), 'expect': exp, 'known_miss': meta.get('missed')})
+# one snapshot of /repo for the whole run: /repo may be edited while the corpus runs
+base = tempfile.mkdtemp(prefix='gocv-selftest-base-', dir='/var/tmp')
+subprocess.run(['rsync', '-a', '--exclude', '.git', '/repo/', base + '/'], check=True)
 ok = bad = 0
 for c in cases:
     if flt and flt not in c['name']:
         continue
     scratch = tempfile.mkdtemp(prefix='gocv-selftest-', dir='/var/tmp')
     try:
-        subprocess.run(['rsync', '-a', '--exclude', '.git', '/repo/', scratch + '/'], check=True)
+        subprocess.run(['rsync', '-a', base + '/', scratch + '/'], check=True)
         if 'patch_file' in c:
             r = subprocess.run(['patch', '-p1', '-s', '-i', c['patch_file']], cwd=scratch, capture_output=True, text=True)
             if r.returncode != 0:
@@ -54,5 +58,6 @@ for c in cases:
             bad += 1; print(f"MISSED  {c['name']} [{c['property']}] rc={r.returncode} failed={failed[:5]}\n   " + '\n   '.join(r.stdout.splitlines()[-4:]))
     finally:
         shutil.rmtree(scratch, ignore_errors=True)
-print(f"selftest: {ok} caught, {bad} missed/broken")
+shutil.rmtree(base, ignore_errors=True)
+print(f"selftest: {ok} caught, {bad} missed/broken", flush=True)
 sys.exit(1 if bad else 0)
